@@ -4,7 +4,9 @@
 //   * the problem also provides eval_hess_ψ_prod, so that PANTR's NewtonTR direction runs in its
 //     default configuration (finite_diff = false) for m > 0;
 //   * the output carries the final step size, the number of step-size backtracks and the final penalty
-//     norm (section `G`), which the monitor needs to recognise a rounding-induced step-size collapse.
+//     norm (section `G`), which the monitor needs to recognise a rounding-induced step-size collapse;
+//   * stacks panoc-/zerofpr-snewton (StructuredNewtonDirection: needs dense eval_hess_ψ) and
+//     panoc-/zerofpr-cnewton (ConvexNewtonDirection: needs dense eval_hess_L, supports m = 0 only).
 #include "solver_common.hpp"
 #include <alpaqa/implementation/inner/panoc.tpp>
 #include <alpaqa/implementation/inner/zerofpr.tpp>
@@ -14,6 +16,8 @@
 #include <alpaqa/inner/directions/panoc/lbfgs.hpp>
 #include <alpaqa/inner/directions/panoc/noop.hpp>
 #include <alpaqa/inner/directions/panoc/structured-lbfgs.hpp>
+#include <alpaqa/inner/directions/panoc/structured-newton.hpp>
+#include <alpaqa/inner/directions/panoc/convex-newton.hpp>
 #include <alpaqa/inner/directions/pantr/newton-tr.hpp>
 #include <alpaqa/implementation/inner/pantr.tpp>
 #include <alpaqa/implementation/inner/fista.tpp>
@@ -52,6 +56,34 @@ struct QPProblem : PolyProblem {
         }
     }
     bool provides_eval_hess_ψ_prod() const { return with_hess; }
+    // Dense Hessians (column-major n×n), required by StructuredNewtonDirection (hess_ψ) and
+    // ConvexNewtonDirection (hess_L, m = 0): assembled column by column from the products above.
+    void eval_hess_L(crvec x, crvec y, real_t scale, rvec H_values) const {
+        vec e = vec::Zero(n), col(n);
+        for (index_t k = 0; k < n; ++k) {
+            e(k) = 1;
+            eval_hess_L_prod(x, y, scale, e, col);
+            H_values.segment(k * n, n) = col;
+            e(k) = 0;
+        }
+    }
+    void eval_hess_ψ(crvec x, crvec y, crvec Σ, real_t scale, rvec H_values) const {
+        vec e = vec::Zero(n), col(n);
+        for (index_t k = 0; k < n; ++k) {
+            e(k) = 1;
+            eval_hess_ψ_prod(x, y, Σ, scale, e, col);
+            H_values.segment(k * n, n) = col;
+            e(k) = 0;
+        }
+    }
+    alpaqa::Sparsity<config_t> get_hess_L_sparsity() const {
+        return alpaqa::sparsity::Dense<config_t>{.rows = n, .cols = n};
+    }
+    alpaqa::Sparsity<config_t> get_hess_ψ_sparsity() const {
+        return alpaqa::sparsity::Dense<config_t>{.rows = n, .cols = n};
+    }
+    bool provides_eval_hess_L() const { return with_hess; }
+    bool provides_eval_hess_ψ() const { return with_hess; }
     std::string get_name() const { return "QPProblem"; }
 };
 
@@ -109,6 +141,10 @@ std::string dispatch(const KV &kv) {
             return run_stack(kv, al::PANOCSolver<al::AndersonDirection<config_t>>{p});
         if (st == "panoc-noop")
             return run_stack(kv, al::PANOCSolver<al::NoopDirection<config_t>>{p});
+        if (st == "panoc-snewton")
+            return run_stack(kv, al::PANOCSolver<al::StructuredNewtonDirection<config_t>>{p});
+        if (st == "panoc-cnewton")
+            return run_stack(kv, al::PANOCSolver<al::ConvexNewtonDirection<config_t>>{p});
     } else if (st.rfind("zerofpr-", 0) == 0) {
         al::ZeroFPRParams<config_t> p;
         limits(p, kv);
@@ -120,6 +156,10 @@ std::string dispatch(const KV &kv) {
             return run_stack(kv, al::ZeroFPRSolver<al::AndersonDirection<config_t>>{p});
         if (st == "zerofpr-noop")
             return run_stack(kv, al::ZeroFPRSolver<al::NoopDirection<config_t>>{p});
+        if (st == "zerofpr-snewton")
+            return run_stack(kv, al::ZeroFPRSolver<al::StructuredNewtonDirection<config_t>>{p});
+        if (st == "zerofpr-cnewton")
+            return run_stack(kv, al::ZeroFPRSolver<al::ConvexNewtonDirection<config_t>>{p});
     } else if (st == "pantr-newtontr") {
         al::PANTRParams<config_t> p;
         limits(p, kv);
